@@ -44,7 +44,27 @@ type Node struct {
 	Close bool `json:"close,omitempty"`
 	// CErr: the cleanup of an unwind-protect signals an error after its marker
 	CErr bool `json:"cerr,omitempty"`
+	// Sym: the tags of this tagbody / loop body are symbols, not integers
+	Sym bool `json:"sym,omitempty"`
+	// Direct: the kids of a lock are the body forms of with-mutex-lock itself
+	// (no unwind-protect/progn between the form and an exit that leaves it)
+	Direct bool `json:"direct,omitempty"`
 }
+
+// tag is the name of the tag in front of kid j (j >= 1) of a tagbody or of a
+// tagged loop body.
+func (n *Node) tag(j int) string {
+	if n.Sym {
+		return fmt.Sprintf("tg%d", n.ID*10+j)
+	}
+	return fmt.Sprint(n.ID*10 + j)
+}
+
+// tagged reports whether the kids of n are separated by tags.
+func (n *Node) tagged() bool { return n.K == "tagbody" || n.K == "prog" || n.Tags }
+
+// loopKind reports whether n establishes a nil block (and an implicit tagbody).
+func loopKind(k string) bool { return k == "dolist" || k == "dotimes" || k == "do" || k == "prog" }
 
 // Fault is the injected fault of a run.
 type Fault struct {
@@ -106,10 +126,12 @@ type genCtx struct {
 	nextID  int
 	blocks  []string
 	tags    []string // tags that may be jumped to from here (later tags of enclosing tagbodies)
+	btags   []string // earlier tags of enclosing tagbodies (a go to one of them repeats a part of the program)
 	mutexes int
 	held    map[int]bool
 	files   int
 	inSend  int
+	backs   int
 }
 
 var errLeaves = []string{"simple", "div0", "type", "unbound"}
@@ -121,8 +143,14 @@ func (g *genCtx) leaf() Node {
 		return Node{K: "val"}
 	case x < 62 && len(g.blocks) > 0:
 		return Node{K: "ret", Name: g.blocks[g.r.Intn(len(g.blocks))]}
-	case x < 72 && len(g.tags) > 0:
+	case x < 70 && len(g.tags) > 0:
 		return Node{K: "go", Name: g.tags[g.r.Intn(len(g.tags))]}
+	case x < 74 && len(g.btags) > 0 && g.backs < 2:
+		// a backward go, taken once (sim-once): the part of the program between
+		// the tag and the leaf runs a second time
+		g.backs++
+		g.nextID++
+		return Node{K: "goback", ID: g.nextID, Name: g.btags[g.r.Intn(len(g.btags))]}
 	case x < 88:
 		return Node{K: "err", Name: errLeaves[g.r.Intn(len(errLeaves))]}
 	case x < 94 && g.inSend == 0:
@@ -155,7 +183,7 @@ func (g *genCtx) exitChain() Node {
 		}
 		bottom = Node{K: "ret", Name: name}
 	}
-	kinds := []string{"let", "when", "cond", "seq", "uwp", "lock", "file", "ignore", "recover", "dolist", "dotimes", "lambda", "send", "block"}
+	kinds := []string{"let", "when", "unless", "cond", "seq", "uwp", "lock", "file", "ignore", "recover", "dolist", "dotimes", "do", "prog", "lambda", "send", "block", "tagbody"}
 	cur := bottom
 	for d, n := 0, 1+g.r.Intn(4); d < n; d++ {
 		g.nextID++
@@ -167,8 +195,12 @@ func (g *genCtx) exitChain() Node {
 				w.K = "seq"
 			} else {
 				g.held[w.Mx] = true
+				w.Direct = g.r.Pct(50)
 				defer func(mx int) { g.held[mx] = false }(w.Mx)
 			}
+		case "prog", "tagbody":
+			w.Tags = w.K == "prog"
+			w.Sym = g.r.Pct(40)
 		case "file":
 			g.files++
 		case "block":
@@ -178,6 +210,10 @@ func (g *genCtx) exitChain() Node {
 			w.Kids = append(w.Kids, Node{K: "val"})
 		}
 		w.Kids = append(w.Kids, cur)
+		if g.r.Pct(50) {
+			// the exit is not the last form: the forms after it must not run
+			w.Kids = append(w.Kids, Node{K: "val"})
+		}
 		cur = w
 	}
 	if useGo {
@@ -221,19 +257,10 @@ func (g *genCtx) node(depth int) Node {
 		g.blocks = g.blocks[:len(g.blocks)-1]
 		return n
 	case x < 42:
-		// (tagbody k0 tA k1 tB k2): kid i may go to the tags after it
-		n := Node{K: "tagbody", ID: id}
-		nk := 2 + g.r.Intn(2)
-		saved := g.tags
-		for i := 0; i < nk; i++ {
-			var later []string
-			for j := i + 1; j < nk; j++ {
-				later = append(later, fmt.Sprint(id*10+j)) // integer tags: slip evaluates a symbol tag it falls through
-			}
-			g.tags = append(append([]string{}, saved...), later...)
-			n.Kids = append(n.Kids, g.node(depth-1))
-		}
-		g.tags = saved
+		// (tagbody k0 tA k1 tB k2): kid i may go to the tags after it, and -
+		// once - back to the tags before it
+		n := Node{K: "tagbody", ID: id, Sym: g.r.Pct(40)}
+		g.taggedKids(&n, depth, 2+g.r.Intn(2))
 		return n
 	case x < 54:
 		mx := g.r.Intn(g.mutexes)
@@ -241,7 +268,7 @@ func (g *genCtx) node(depth int) Node {
 			return Node{K: "seq", ID: id, Kids: g.kids(depth-1, 2)}
 		}
 		g.held[mx] = true
-		n := Node{K: "lock", ID: id, Mx: mx, Kids: g.kids(depth-1, 2)}
+		n := Node{K: "lock", ID: id, Mx: mx, Direct: g.r.Pct(40), Kids: g.kids(depth-1, 2)}
 		g.held[mx] = false
 		return n
 	case x < 62:
@@ -252,25 +279,16 @@ func (g *genCtx) node(depth int) Node {
 	case x < 71:
 		return Node{K: "recover", ID: id, Kids: g.kids(depth-1, 2)}
 	default:
-		k := []string{"seq", "let", "when", "cond", "dolist", "dotimes", "lambda", "send"}[g.r.Intn(8)]
-		if k == "dolist" || k == "dotimes" {
+		k := []string{"seq", "let", "when", "unless", "cond", "dolist", "dotimes", "do", "prog", "lambda", "send"}[g.r.Intn(11)]
+		if loopKind(k) {
 			// the loop establishes a nil block: (return v) leaves it; its
 			// body is an implicit tagbody
 			g.blocks = append(g.blocks, "nil")
 			n := Node{K: k, ID: id}
-			if g.r.Pct(35) {
+			if k == "prog" || g.r.Pct(35) {
 				n.Tags = true
-				nk := 2 + g.r.Intn(2)
-				saved := g.tags
-				for i := 0; i < nk; i++ {
-					var later []string
-					for j := i + 1; j < nk; j++ {
-						later = append(later, fmt.Sprint(id*10+j))
-					}
-					g.tags = append(append([]string{}, saved...), later...)
-					n.Kids = append(n.Kids, g.node(depth-1))
-				}
-				g.tags = saved
+				n.Sym = g.r.Pct(40)
+				g.taggedKids(&n, depth, 2+g.r.Intn(2))
 			} else {
 				n.Kids = g.kids(depth-1, 2)
 			}
@@ -285,6 +303,25 @@ func (g *genCtx) node(depth int) Node {
 		}
 		return Node{K: k, ID: id, Kids: g.kids(depth-1, 2)}
 	}
+}
+
+// taggedKids generates nk kids separated by tags: kid i sees the tags after
+// it as forward targets and the tags up to it as backward targets.
+func (g *genCtx) taggedKids(n *Node, depth, nk int) {
+	saved, bsaved := g.tags, g.btags
+	for i := 0; i < nk; i++ {
+		var later, earlier []string
+		for j := i + 1; j < nk; j++ {
+			later = append(later, n.tag(j))
+		}
+		for j := 1; j <= i; j++ {
+			earlier = append(earlier, n.tag(j))
+		}
+		g.tags = append(append([]string{}, saved...), later...)
+		g.btags = append(append([]string{}, bsaved...), earlier...)
+		n.Kids = append(n.Kids, g.node(depth-1))
+	}
+	g.tags, g.btags = saved, bsaved
 }
 
 func (e *engine) Generate(seed uint64, idx int, tier string, avoid []harness.Finding) json.RawMessage {
@@ -355,6 +392,9 @@ func (n *Node) render(dir string, b *strings.Builder) {
 		}
 	case "go":
 		fmt.Fprintf(b, "(progn (sim-emit \"leaf\" \"go\" \"%s\") (go %s))", n.Name, n.Name)
+	case "goback":
+		// taken the first time only, so that the program ends
+		fmt.Fprintf(b, "(when (sim-once %d) (sim-emit \"leaf\" \"go\" \"%s\") (go %s))", n.ID, n.Name, n.Name)
 	case "err":
 		fmt.Fprintf(b, "(progn (sim-emit \"signal\" \"%s\") %s)", n.Name, errForm(n.Name))
 	case "recur":
@@ -370,23 +410,30 @@ func (n *Node) render(dir string, b *strings.Builder) {
 		fmt.Fprintf(b, "(let ((v%d %d)) %s)", n.ID, n.ID, all())
 	case "when":
 		fmt.Fprintf(b, "(when t %s)", all())
+	case "unless":
+		fmt.Fprintf(b, "(unless nil %s)", all())
 	case "cond":
 		fmt.Fprintf(b, "(cond (nil 'no) (t %s))", all())
-	case "dolist", "dotimes":
+	case "dolist", "dotimes", "do", "prog":
 		body := all()
 		if n.Tags {
 			var parts []string
 			for i := range n.Kids {
 				if i > 0 {
-					parts = append(parts, fmt.Sprintf("%d (sim-emit \"at\" %d)", n.ID*10+i, n.ID*10+i))
+					parts = append(parts, fmt.Sprintf("%s (sim-emit \"at\" \"%s\")", n.tag(i), n.tag(i)))
 				}
 				parts = append(parts, kid(i))
 			}
 			body = seq(parts)
 		}
 		head := fmt.Sprintf("dolist (e%d '(1 2))", n.ID)
-		if n.K == "dotimes" {
+		switch n.K {
+		case "dotimes":
 			head = fmt.Sprintf("dotimes (i%d 2)", n.ID)
+		case "do":
+			head = fmt.Sprintf("do ((dv%d 0 (1+ dv%d))) ((>= dv%d 2) 'done)", n.ID, n.ID, n.ID)
+		case "prog":
+			head = fmt.Sprintf("prog ((pv%d 1))", n.ID)
 		}
 		fmt.Fprintf(b, "(let ((lv%d (%s %s))) (sim-emit \"bend\" \"nil\" lv%d) lv%d)", n.ID, head, body, n.ID, n.ID)
 	case "lambda":
@@ -404,7 +451,7 @@ func (n *Node) render(dir string, b *strings.Builder) {
 		for i := range n.Kids {
 			if i > 0 {
 				// the marker right after the tag tells that the go arrived
-				fmt.Fprintf(b, " %d (sim-emit \"at\" %d) ", n.ID*10+i, n.ID*10+i)
+				fmt.Fprintf(b, " %s (sim-emit \"at\" \"%s\") ", n.tag(i), n.tag(i))
 			}
 			b.WriteString(kid(i))
 		}
@@ -421,6 +468,13 @@ func (n *Node) render(dir string, b *strings.Builder) {
 		// two cleanup forms: the second must follow the first, once
 		fmt.Fprintf(b, "(unwind-protect (progn (sim-emit \"enter\" %d) %s) (sim-emit \"cleanup\" %d) (sim-emit \"cleanup2\" %d)%s)", n.ID, all(), n.ID, n.ID, cerr)
 	case "lock":
+		if n.Direct {
+			// the kids are body forms of with-mutex-lock itself; cs-left is
+			// emitted after the form has been left, so every marker between
+			// cs-enter and cs-left was emitted with the mutex held
+			fmt.Fprintf(b, "(unwind-protect (with-mutex-lock m%d (sim-emit \"csd-enter\" %d) %s) (sim-emit \"cs-left\" %d))", n.Mx, n.Mx, all(), n.Mx)
+			break
+		}
 		// cs-leave is emitted by a cleanup inside the lock, i.e. while the
 		// mutex is still held, on every path
 		fmt.Fprintf(b, "(with-mutex-lock m%d (unwind-protect (progn (sim-emit \"cs-enter\" %d) %s) (sim-emit \"cs-leave\" %d)))", n.Mx, n.Mx, all(), n.Mx)
@@ -658,6 +712,8 @@ func (c *Case) judge(out runOut, f *Fault) *harness.Violation {
 	pendingGo := ""   // a go to this tag is on its way
 	lastCleanup := "" // region whose first cleanup form was the last marker
 	inCS := map[string]bool{}
+	inDirect := map[string]bool{}
+	obsInside := map[string]bool{}
 	lastSignal := ""
 	wrote := map[string]int{}
 	interrupted := false
@@ -667,13 +723,24 @@ func (c *Case) judge(out runOut, f *Fault) *harness.Violation {
 			if fs[0] == "obs" && inCS[fs[1]] {
 				return viol("mutual-exclusion", "%s: the observer of mutex %s ran while the program was inside with-mutex-lock on it; trace: %s", what, fs[1], trace(out.marks))
 			}
+			if fs[0] == "obs" && inDirect[fs[1]] {
+				obsInside[fs[1]] = true
+			}
 			continue
+		}
+		// a marker of the program that follows an observer's marker inside
+		// csd-enter .. cs-left was emitted by the body, i.e. with the mutex
+		// held - and the observer had it in between
+		for mx := range obsInside {
+			if inDirect[mx] && !(fs[0] == "cs-left" && fs[1] == mx) {
+				return viol("mutual-exclusion", "%s: the observer of mutex %s ran while the body of with-mutex-lock on it was still running (%q came after it); trace: %s", what, mx, m.text, trace(out.marks))
+			}
 		}
 		if pendingRet != "" {
 			// Exit transfer (first sentence of C07): between a return-from and
 			// the end of its block only cleanups may run.
 			switch fs[0] {
-			case "cleanup", "cleanup2", "cs-leave":
+			case "cleanup", "cleanup2", "cs-leave", "cs-left":
 			case "bend":
 				if fs[1] == pendingRet {
 					pendingRet = ""
@@ -692,7 +759,7 @@ func (c *Case) judge(out runOut, f *Fault) *harness.Violation {
 		if pendingGo != "" {
 			// after (go tag) only cleanups may run until the form after the tag
 			switch fs[0] {
-			case "cleanup", "cleanup2", "cs-leave", "bend":
+			case "cleanup", "cleanup2", "cs-leave", "cs-left", "bend":
 			case "at":
 				if fs[1] != pendingGo {
 					return viol("go-wrong-tag", "%s: (go %s) arrived at tag %s; trace: %s", what, pendingGo, fs[1], trace(out.marks))
@@ -737,6 +804,11 @@ func (c *Case) judge(out runOut, f *Fault) *harness.Violation {
 			inCS[fs[1]] = true
 		case "cs-leave":
 			inCS[fs[1]] = false
+		case "csd-enter":
+			inDirect[fs[1]] = true
+		case "cs-left":
+			delete(inDirect, fs[1])
+			delete(obsInside, fs[1])
 		case "walk":
 			if len(fs) == 3 && fs[2] != fmt.Sprint(atoi(fs[1])-1) {
 				return viol("exit-value", "%s: (return-from wb %s) in a re-entered function yielded %s to its block; trace: %s", what, fmt.Sprint(atoi(fs[1])-1), fs[2], trace(out.marks))
@@ -795,7 +867,7 @@ func (c *Case) judge(out runOut, f *Fault) *harness.Violation {
 				continue
 			}
 			switch fs := strings.Fields(m.text); fs[0] {
-			case "cleanup", "cleanup2", "cs-leave", "bend", "closed":
+			case "cleanup", "cleanup2", "cs-leave", "cs-left", "bend", "closed":
 			case "signal":
 				last = "signal " + fs[1]
 			default:
@@ -927,28 +999,34 @@ func (e *engine) Execute(raw json.RawMessage) (vd harness.Verdict) {
 // validTargets reports whether every return-from names an enclosing block (or
 // "nil" inside a loop) and every go names a later tag of an enclosing tagbody
 // or tagged loop - a shrink candidate must stay a legal program.
-func validTargets(n *Node, blocks, tags []string) bool {
+func validTargets(n *Node, blocks, tags, btags []string) bool {
 	switch n.K {
 	case "ret":
 		return contains(blocks, n.Name)
 	case "go":
 		return contains(tags, n.Name)
+	case "goback":
+		return contains(btags, n.Name)
 	}
 	for i := range n.Kids {
-		b, t := blocks, tags
+		b, t, bt := blocks, tags, btags
 		if n.K == "block" {
 			b = append(append([]string{}, blocks...), n.Name)
 		}
-		if n.K == "dolist" || n.K == "dotimes" {
+		if loopKind(n.K) {
 			b = append(append([]string{}, blocks...), "nil")
 		}
-		if n.K == "tagbody" || n.Tags {
+		if n.tagged() {
 			t = append([]string{}, tags...)
 			for j := i + 1; j < len(n.Kids); j++ {
-				t = append(t, fmt.Sprint(n.ID*10+j))
+				t = append(t, n.tag(j))
+			}
+			bt = append([]string{}, btags...)
+			for j := 1; j <= i; j++ {
+				bt = append(bt, n.tag(j))
 			}
 		}
-		if !validTargets(&n.Kids[i], b, t) {
+		if !validTargets(&n.Kids[i], b, t, bt) {
 			return false
 		}
 	}
@@ -968,7 +1046,7 @@ func (e *engine) Shrink(raw json.RawMessage) (out []json.RawMessage) {
 	var c Case
 	_ = json.Unmarshal(raw, &c)
 	emit := func(n Case) {
-		if !validTargets(&n.Prog, nil, nil) {
+		if !validTargets(&n.Prog, nil, nil, nil) {
 			return
 		}
 		// after a structural change the fault position and schedule are
@@ -997,20 +1075,27 @@ func (e *engine) Shrink(raw json.RawMessage) (out []json.RawMessage) {
 			// replace the node by one of its kids (only for transparent forms)
 			if len(path) > 0 || true {
 				switch n.K {
-				case "seq", "let", "when", "cond", "dolist", "dotimes", "lambda", "send", "ignore", "recover", "uwp", "lock", "file", "block":
+				case "seq", "let", "when", "unless", "cond", "dolist", "dotimes", "do", "prog", "lambda", "send", "ignore", "recover", "uwp", "lock", "file", "block":
 					emit(replace(path, cloneNode(n.Kids[i])))
 				}
 			}
 			if len(n.Kids) > 1 {
 				nn := cloneNode(*n)
 				nn.Kids = append(nn.Kids[:i:i], nn.Kids[i+1:]...)
-				if n.K != "tagbody" {
+				if !n.tagged() {
 					emit(replace(path, nn))
 				}
 			}
 		}
-		if n.K == "err" || n.K == "ret" || n.K == "go" {
+		if n.K == "err" || n.K == "ret" || n.K == "go" || n.K == "goback" || n.K == "recur" {
 			emit(replace(path, Node{K: "val"}))
+		}
+		if n.Direct || n.Sym {
+			nn := cloneNode(*n)
+			nn.Direct, nn.Sym = false, false
+			if !n.Sym || !hasGoTo(&c.Prog) {
+				emit(replace(path, nn))
+			}
 		}
 		if n.CErr {
 			nn := cloneNode(*n)
@@ -1039,6 +1124,10 @@ func cloneNode(n Node) Node {
 	}
 	return c
 }
+
+// hasGoTo: a program with go leaves names its tags, so the spelling of the
+// tags cannot be changed node by node.
+func hasGoTo(n *Node) bool { return hasKind(n, "go") || hasKind(n, "goback") }
 
 func hasKind(n *Node, k string) bool {
 	if n.K == k {
@@ -1093,14 +1182,14 @@ var goMode bool
 
 func blocksAnyPosition(n *Node) bool {
 	k := n.K
-	return k == "tagbody" || (k == "file" && n.Close) || (goMode && (k == "dolist" || k == "dotimes" || k == "send"))
+	return k == "tagbody" || (k == "file" && n.Close) || (goMode && (loopKind(k) || k == "send"))
 }
 
 func nonTailCrossings(n *Node, visible []string, crossing map[string][]string, out map[string]bool) {
 	// crossing[blockName] = kinds of forms the exit would cross in non-tail position
 	switch n.K {
-	case "ret", "go":
-		if (n.K == "go") == goMode {
+	case "ret", "go", "goback":
+		if (n.K != "ret") == goMode {
 			for _, k := range crossing[n.Name] {
 				if goMode {
 					k = "go:" + k
@@ -1116,13 +1205,13 @@ func nonTailCrossings(n *Node, visible []string, crossing map[string][]string, o
 		if n.K == "block" {
 			vis = append(append([]string{}, visible...), n.Name)
 		}
-		if n.K == "dolist" || n.K == "dotimes" {
+		if loopKind(n.K) {
 			vis = append(append([]string{}, visible...), "nil")
 		}
-		if n.K == "tagbody" || n.Tags {
+		if n.tagged() {
 			vis = append([]string{}, vis...)
-			for j := i + 1; j < len(n.Kids); j++ {
-				vis = append(vis, fmt.Sprint(n.ID*10+j))
+			for j := 1; j < len(n.Kids); j++ {
+				vis = append(vis, n.tag(j))
 			}
 		}
 		last := i == len(n.Kids)-1
@@ -1145,8 +1234,8 @@ func nonTailCrossings(n *Node, visible []string, crossing map[string][]string, o
 // sanitize replaces return-from leaves that would cross one of the given
 // form kinds in non-tail position by plain values.
 func sanitize(n *Node, visible []string, unsafe map[string]bool, kinds map[string]bool) {
-	if n.K == "ret" || n.K == "go" {
-		if (n.K == "go") == goMode && unsafe[n.Name] {
+	if n.K == "ret" || n.K == "go" || n.K == "goback" {
+		if (n.K != "ret") == goMode && unsafe[n.Name] {
 			*n = Node{K: "val"}
 		}
 		return
@@ -1157,13 +1246,13 @@ func sanitize(n *Node, visible []string, unsafe map[string]bool, kinds map[strin
 		if n.K == "block" {
 			vis = append(append([]string{}, visible...), n.Name)
 		}
-		if n.K == "dolist" || n.K == "dotimes" {
+		if loopKind(n.K) {
 			vis = append(append([]string{}, visible...), "nil")
 		}
-		if n.K == "tagbody" || n.Tags {
+		if n.tagged() {
 			vis = append([]string{}, vis...)
-			for j := i + 1; j < len(n.Kids); j++ {
-				vis = append(vis, fmt.Sprint(n.ID*10+j))
+			for j := 1; j < len(n.Kids); j++ {
+				vis = append(vis, n.tag(j))
 			}
 		}
 		last := i == len(n.Kids)-1
